@@ -47,6 +47,12 @@ func greetingEqFacts(fs []fact, hello func(ssa.Value) bool) []*ssa.Call {
 			if !sameValue(rc.Call.Args[0], sl.X) {
 				continue
 			}
+			// the buffer must be larger than any greeting (fixed size, >= 64): read into a buffer of exactly the
+			// greeting's length, "equal" only means "starts with" — a longer greeting (another port with the same
+			// leading digits, a greeting followed by payload) is accepted
+			if n := constBufLen(rc.Call.Args[0]); n < 64 {
+				continue
+			}
 			reads = append(reads, rc)
 		}
 	}
@@ -676,4 +682,26 @@ func isHelloResult(idx int) func(ssa.Value) bool {
 		call, i := callOf(v)
 		return call != nil && i == idx && calleeID(&call.Call) == "trzsz.getHelloConstant"
 	}
+}
+
+// constBufLen: the constant length of a freshly made byte buffer (make([]byte, K) / [K]byte sliced whole); -1 if not constant.
+func constBufLen(v ssa.Value) int64 {
+	v = strip(v)
+	switch x := v.(type) {
+	case *ssa.MakeSlice:
+		if k, ok := constInt(x.Len); ok {
+			return k
+		}
+	case *ssa.Slice:
+		if al, ok := x.X.(*ssa.Alloc); ok && x.Low == nil {
+			n := arrayLen(al)
+			if x.High == nil {
+				return n
+			}
+			if k, ok := constInt(x.High); ok {
+				return k
+			}
+		}
+	}
+	return -1
 }
